@@ -121,3 +121,7 @@ package encoding
 // The closing step of C03 ("one byte off a framed message is not framed") is trusted in the
 // proof above; a bounded stand-in tries every single-byte edit of a fixed set of messages.
 //@ bounded[C03] c03_single_byte_edits @tests: every single-byte substitution, insertion, deletion and proper prefix of a fixed set of valid messages is rejected, both strict modes
+// The accepting direction (a valid message is parsed, whatever its values look like) is not
+// stated deductively for the public entry point; the session properties that need a valid
+// admin message to reach its handler carry this bounded stand-in.
+//@ bounded[C02,C06,C10,C14,C15,C16] c02_valid_messages_accepted @tests: valid generated messages with adversarial values are accepted by encoding.Unmarshal in both strict modes and read back unchanged
